@@ -827,3 +827,38 @@ def loads_keep_duplicates(text):
 
     val = json.loads(text, object_pairs_hook=hook)
     return val, conflicts
+
+
+# ---------------------------------------------------------------------------------------------
+# Single-point edits of a document (every selection set, at any depth, inside fragments too)
+# ---------------------------------------------------------------------------------------------
+
+
+def single_point_edits(schema, doc, editor):
+    """editor(parent_type, sel, where) -> iterable of (description, new selection tuple).
+    Yields (description, where, new Doc) with exactly one selection set replaced."""
+
+    def rec(parent, sel, where):
+        for desc, ns in editor(parent, sel, where):
+            yield desc, where, tuple(ns)
+        for i, s in enumerate(sel):
+            if isinstance(s, Field) and s.sel and s.name != "__typename":
+                fd = schema.field_def(parent, s.name)
+                if fd is None:
+                    continue
+                for desc, w, ns in rec(named(fd.type), s.sel, where + "/" + s.key):
+                    yield desc, w, sel[:i] + (Field(s.name, ns, s.alias, s.args),) + sel[i + 1:]
+            elif isinstance(s, Inline) and s.on:
+                for desc, w, ns in rec(s.on, s.sel, where + "/...on " + s.on):
+                    yield desc, w, sel[:i] + (Inline(s.on, ns),) + sel[i + 1:]
+
+    for di, d in enumerate(doc.defs):
+        if isinstance(d, FragDef):
+            parent, where = d.on, "fragment " + d.name
+        else:
+            parent, where = root_type(schema, d), d.name or "<anonymous>"
+        if parent is None or not schema.is_composite(parent):
+            continue
+        for desc, w, ns in rec(parent, d.sel, where):
+            nd = FragDef(d.name, d.on, ns) if isinstance(d, FragDef) else Op(d.kind, d.name, ns, d.vars)
+            yield desc, w, Doc(doc.defs[:di] + [nd] + doc.defs[di + 1:])
